@@ -303,10 +303,13 @@ func (c *Ctx) c12Cleanup() {
 			r.Bad("R12.2", "Trait.invokeCleanup", "fraction-formula", c.Pos(ev.Pos), fmt.Sprintf("fraction passed to the evictor is %s, documented is %s", got, want), shortTrace(p))
 		}
 		if want == nil {
-			// defaulted + count breach: check the shape 1 − L·(1−c)/n with c ≈ 0.1
-			s := got.String()
-			if !strings.Contains(s, "/(n)}") || !strings.Contains(s, "L") {
-				r.Bad("R12.2", "Trait.invokeCleanup", "fraction-formula", c.Pos(ev.Pos), "count breach with default fraction: expected 1 − L·(1−0.1)/n, got "+s, shortTrace(p))
+			// defaulted + count breach: 1 − L·(1−c)/n with c the float64 constant 0.1 the code uses for the default — not with the
+			// (zero) configured fraction again, which would trim to the limit itself instead of below it
+			c01 := new(big.Rat).SetFloat64(0.1)
+			w := poly.Int(1).Sub(poly.Atom("L").Mul(poly.Int(1).Sub(poly.Const(c01))).Div(poly.Atom("n")))
+			w2 := poly.Int(1).Sub(poly.Atom("L").Mul(poly.Int(1).Sub(poly.Rat(1, 10))).Div(poly.Atom("n")))
+			if !got.Equal(w) && !got.Equal(w2) {
+				r.Bad("R12.2", "Trait.invokeCleanup", "fraction-formula", c.Pos(ev.Pos), "count breach with default fraction: expected 1 − L·(1−0.1)/n, got "+got.String(), shortTrace(p))
 			}
 		}
 	}
